@@ -401,6 +401,11 @@ def st_case(draw, profile):
             case['catch'] = draw(st.sampled_from([False, 'VErrA', ['VErrA', 'VErrC'], 'VErrB']))
             if case['catch'] is not False:
                 case.pop('with_key', None) if w > 1 else None
+    if profile == 'plain' and kind == 'pf' and draw(st.integers(0, 2)) == 0:
+        # catching enabled, nothing raises: still every example (also a None example) exactly once
+        case['catch'] = draw(st.sampled_from([True, 'VErrA']))
+        if w > 1:
+            case.pop('with_key', None)
     if profile == 'stop':
         sk = draw(st.sampled_from(['exhaust', 'close', 'close', 'del', 'gc']))
         case['stop'] = {'kind': sk, 'k': draw(st.integers(0, n + 1)) if sk != 'exhaust' else 0}
